@@ -458,6 +458,8 @@ def cases(tier):
         cs += equiv_cases(T)
         cs += tweaked_pick_cases(T)
     cs += canaries()
+    from rules import narrow
+    cs += narrow.cases(cs, 'C08')
     return cs
 
 
